@@ -114,6 +114,13 @@ theorem fileStep_inv {A i pd f fa f'} (hA : 1 ≤ A) (hi : FInv A i f)
     cases rp <;> simp at h <;> subst h <;> exact ⟨hn, hp, hr, hq, hd, ho⟩
   case pollError =>
     cases sp <;> simp at h <;> subst h <;> exact ⟨hn, hp, hr, hq, hd, ho⟩
+  case earlyAcked =>
+    cases sp <;> simp at h
+    obtain ⟨_, rfl⟩ := h
+    refine ⟨hn, hp, hr, ?_, by simp, by simp⟩
+    intro p hp'
+    simp at hp'
+    omega
 
 theorem crashSenderFile_inv {A i f} (hi : FInv A i f) : FInv A i (crashSenderFile f) := by
   obtain ⟨hn, hp, hr, hq, hd, ho⟩ := hi
@@ -364,6 +371,7 @@ def mkAction (i : Nat) : FAct → Action
   | .release => .release i
   | .poll => .poll i
   | .loseAck => .loseAck i
+  | .earlyAcked => .earlyAcked i
   | .dropPart => .dropPart i
   | .corrupt => .corrupt i
   | .pollError => .pollError i
